@@ -210,7 +210,7 @@ impl<'a> FnTr<'a> {
     pub(crate) fn act(&mut self, st: &mut Stmts, term: String) -> String {
         let n = self.fresh();
         // builder O: in I/O mode a checked primitive is lifted into the I/O monad
-        let term = if self.reg.io.borrow().mode { format!("Rt.Phy.ofOpt ({})", term) } else { term };
+        let term = if self.reg.io.borrow().mode && !self.reg.io.borrow().in_pure { format!("Rt.Phy.ofOpt ({})", term) } else { term };
         st.push((n.clone(), Rhs::Act(term)));
         n
     }
@@ -926,6 +926,17 @@ impl<'a> FnTr<'a> {
 
     /// Translate a whole function; returns Lean text and the signature.
     pub fn function(&mut self, sig: &Signature, body: &Block, lean_name: &str) -> Res<(String, FnSig)> {
+        // builder P: inside a non-`Result` function translated while the I/O mode is on (`C::ramp_value`), checked
+        // primitives stay in `Option` (they are lifted where the I/O action calls the function)
+        let io_fn = self.reg.io.borrow().mode && crate::phyio::is_io_fn(sig);
+        let was = self.reg.io.borrow().in_pure;
+        self.reg.io.borrow_mut().in_pure = !io_fn;
+        let r = self.function_inner(sig, body, lean_name);
+        self.reg.io.borrow_mut().in_pure = was;
+        r
+    }
+
+    fn function_inner(&mut self, sig: &Signature, body: &Block, lean_name: &str) -> Res<(String, FnSig)> {
         // builder O (I/O mode): `-> Result<_, RadioError>` functions are actions of `Rt.Phy.IoM`
         if self.reg.io.borrow().mode && crate::phyio::is_io_fn(sig) {
             return crate::phyio::function_io(self, sig, body, lean_name);
@@ -1842,7 +1853,15 @@ impl<'a> FnTr<'a> {
                 Some(Ty::Named(n)) => n.clone(),
                 _ => tyn,
             };
-            self.reg.fns.get(&format!("{}::{}", tyn, segs[segs.len() - 1])).cloned()
+            match self.reg.fns.get(&format!("{}::{}", tyn, segs[segs.len() - 1])).cloned() {
+                Some(s) => Some(s),
+                // builder P (I/O mode): an associated function of the variant (`C::set_tx_power(self, ..)`,
+                // `Self::bandwidth_value(..)`) is translated on demand like a helper method
+                None if self.reg.io.borrow().mode && (self.reg.structs.contains_key(&tyn) || self.reg.enums.contains_key(&tyn)) => {
+                    Some(self.method_on_demand(&tyn, &segs[segs.len() - 1])?)
+                }
+                None => None,
+            }
         };
         let sig = sig.ok_or(format!("call of unknown function {}", name))?;
         if !sig.muts.is_empty() {
